@@ -35,7 +35,23 @@ SEPDIR = dict(
     enum_ctors={"SepDir": ["SepDir." + n for n in _SD]},
 )
 
-JOBS = {"geometry": GEOMETRY, "makepath": MAKEPATH, "sepdir": SEPDIR}
+_TP = [("p", "Rat"), ("g", "Rat"), ("leftOf", "Bool"), ("u1", "Rat"), ("u2", "Rat"), ("v1", "Rat"), ("v2", "Rat"), ("w1", "Rat"), ("w2", "Rat")]
+TRI = dict(
+    src="cola/libtopology/topology_constraints.cpp",
+    ns="AdaptaVerif.Gen.Tri",
+    out="lean/AdaptaVerif/Gen/Tri.lean",
+    functions=["slack", "slackAtFinal", "slackAtInitial", "maxSafeAlpha"],
+    filters={f: "TriConstraint::" + f for f in ["slack", "slackAtFinal", "slackAtInitial", "maxSafeAlpha"]},
+    # TriConstraint members / the three Node* it points to become explicit parameters of every kernel
+    this_params=_TP,
+    members_all={"p": ("p", "Rat"), "g": ("g", "Rat"), "leftOf": ("leftOf", "Bool")},
+    member_calls={("u", "initialPos"): ("u1", "Rat"), ("u", "finalPos"): ("u2", "Rat"),
+                  ("v", "initialPos"): ("v1", "Rat"), ("v", "finalPos"): ("v2", "Rat"),
+                  ("w", "initialPos"): ("w1", "Rat"), ("w", "finalPos"): ("w2", "Rat")},
+    skip_if_refs=["logDEBUG", "logERROR", "logWARNING", "logINFO"],
+)
+
+JOBS = {"geometry": GEOMETRY, "makepath": MAKEPATH, "sepdir": SEPDIR, "tri": TRI}
 
 def regenerate(names, ROOT, REPO):
     info = {}
